@@ -180,6 +180,7 @@ struct Node2 : Node
 {
     Node2() = default;
     Node2(Node&& n) : Node(std::move(n)) {}
+    Node2(const Node& n) : Node(n) {}        // (exists to be OBSERVED: the library converts the functor's rvalue result - a move)
     Node2(const Node2&) = default;
     Node2(Node2&&) = default;
     Node2& operator=(const Node2&) = default;
